@@ -498,6 +498,30 @@ def r24(ctx: Ctx) -> RuleReport:
     return rep
 
 
+def _expand_dictcomp(ctx: Ctx, fi: FuncInfo, dc: ast.DictComp):
+    """{name: getattr(args, name) for name in NAMES} with NAMES a constant tuple of strings, written out as the dict literal it builds"""
+    if len(dc.generators) != 1 or dc.generators[0].ifs or not isinstance(dc.generators[0].target, ast.Name):
+        return None
+    ok, names = try_fold(dc.generators[0].iter, {}, ctx.repo, fi.module)
+    if not ok or not isinstance(names, (tuple, list)) or not all(isinstance(x, str) for x in names):
+        return None
+    v = dc.generators[0].target.id
+    if norm(dc.key) != v:
+        return None
+    keys, values = [], []
+    for nm in names:
+        if isinstance(dc.value, ast.Call) and norm(dc.value.func) == 'getattr' and len(dc.value.args) == 2 and norm(dc.value.args[1]) == v and nm.isidentifier():
+            val = ast.Attribute(value=dc.value.args[0], attr=nm, ctx=ast.Load())
+        else:
+            return None
+        keys.append(ast.Constant(value=nm))
+        values.append(val)
+    d = ast.Dict(keys=keys, values=values)
+    ast.copy_location(d, dc)
+    ast.fix_missing_locations(d)
+    return d
+
+
 @rule('R25', 'each command-line option guards exactly its own operation (no crossed wires, none dropped)')
 def r25(ctx: Ctx) -> RuleReport:
     rep = RuleReport('R25', r25.title, floor=16)
@@ -517,6 +541,8 @@ def r25(ctx: Ctx) -> RuleReport:
     dicts: Dict[str, Dict[str, ast.AST]] = {}
     for name in ('normalize_options', 'format_options'):
         vals = ctx.cg.local_assigns(main).get(name, [])
+        if len(vals) == 1 and isinstance(vals[0], ast.DictComp):
+            vals = [_expand_dictcomp(ctx, main, vals[0]) or vals[0]]
         if len(vals) != 1 or not isinstance(vals[0], ast.Dict):
             raise AnalysisError(f'R25: {name} in main() is not a single dict literal')
         dicts[name] = {try_fold(k)[1]: v for k, v in zip(vals[0].keys, vals[0].values)}
@@ -654,6 +680,8 @@ def _arg_source(ctx: Ctx, fi: FuncInfo, v: ast.AST, depth: int = 0) -> Optional[
     """'x' if the value is args.x, possibly through one local computed by a helper from args.x."""
     if isinstance(v, ast.Attribute) and isinstance(v.value, ast.Name) and v.value.id == 'args':
         return v.attr
+    if isinstance(v, ast.Call) and len(v.args) >= 1 and depth < 4 and any(t.kind == 'func' for t in ctx.cg.resolve_call(v, fi)):
+        return _arg_source(ctx, fi, v.args[0], depth + 1)          # helper(args.x) written in place
     if isinstance(v, ast.Name):
         vals = ctx.cg.local_assigns(fi).get(v.id, [])
         if len(vals) > 1 and depth < 4:
@@ -684,6 +712,93 @@ def _arg_source(ctx: Ctx, fi: FuncInfo, v: ast.AST, depth: int = 0) -> Optional[
 
 
 # ---------------------------------------------------------------------------------------------
+def _r42_lookahead_form(ctx: Ctx, rep: RuleReport, fi: FuncInfo, cfg, pm, IN, RD) -> bool:
+    """t = next(trees, None) / while t is not None: <print the graph>; t = next(trees, None); if t is not None: print()  -
+    one tree of look-ahead: the separator is printed after a graph exactly when another one follows."""
+    las = ctx.cg.local_assigns(fi)
+
+    def pulls(v):
+        """name of the iterator when v is next(IT, None) and IT is (iter of) the iterparse result"""
+        if not (isinstance(v, ast.Call) and norm(v.func) == 'next' and len(v.args) == 2 and isinstance(v.args[1], ast.Constant) and v.args[1].value is None
+                and isinstance(v.args[0], ast.Name)):
+            return None
+        src = las.get(v.args[0].id, [])
+        if len(src) != 1 or not isinstance(src[0], ast.AST):
+            return None
+        e = src[0]
+        if isinstance(e, ast.Call) and norm(e.func) == 'iter' and len(e.args) == 1:
+            e = e.args[0]
+        if isinstance(e, ast.Call) and any(t.kind == 'func' and t.func.qualname.endswith('iterparse') for t in ctx.cg.resolve_call(e, fi)):
+            return v.args[0].id
+        return None
+    for lp in [n for n in walk_local(fi.node) if isinstance(n, ast.While)]:
+        t_ = lp.test
+        if not (isinstance(t_, ast.Compare) and len(t_.ops) == 1 and isinstance(t_.ops[0], ast.IsNot) and isinstance(t_.left, ast.Name)
+                and isinstance(t_.comparators[0], ast.Constant) and t_.comparators[0].value is None) or lp.orelse:
+            continue
+        X = t_.left.id
+        defs = [n for n in walk_local(fi.node) if isinstance(n, ast.Assign) and len(n.targets) == 1 and isinstance(n.targets[0], ast.Name) and n.targets[0].id == X and pulls(n.value)]
+        inner = [n for n in defs if any(x is n for x in ast.walk(lp))]
+        outer = [n for n in defs if n not in inner]
+        if len(inner) != 1 or len(outer) != 1 or pulls(inner[0].value) != pulls(outer[0].value):
+            continue
+        if any(isinstance(x, (ast.Break, ast.Continue)) for x in ast.walk(lp)):
+            rep.undecided('penman.__main__:process: loop over codec.iterparse(f)', fi.loc(lp), 'break / continue in the look-ahead loop')
+            return True
+        head = cfg.node_of(lp)
+        cond = cfg.expr_cond.get(id(t_))
+        pull = cfg.node_of(inner[0])
+        first = cfg.node_of(outer[0])
+        # the first pull is what the loop test sees on entry
+        if RD.get(cond, {}).get(X, set()) != {first, pull}:
+            rep.undecided('penman.__main__:process: loop over codec.iterparse(f)', fi.loc(lp), f'`{X}` has other definitions reaching the loop test')
+            return True
+        rep.ok('penman.__main__:process: loop over codec.iterparse(f)', fi.loc(lp), f'{X} = next({pulls(inner[0].value)}, None) before the loop and at the end of every round')
+        prints = [c for c, ts in ctx.cg.calls_in(fi) if any(t.kind == 'ext' and t.name == 'builtins.print' for t in ts) and any(x is c for x in ast.walk(lp))]
+        out_param = fi.positional[2] if len(fi.positional) > 2 else 'out'
+        for c in prints:
+            f = next((k.value for k in c.keywords if k.arg == 'file'), None)
+            good = isinstance(f, ast.Name) and f.id == out_param
+            rep.add(f'penman.__main__:process: {norm(c)} goes to the output stream', fi.loc(c), 'ok' if good else 'undecided', '' if good else 'graph text is not written to the `out` argument')
+        content = [c for c in prints if c.args]
+        seps = [c for c in prints if not c.args]
+        if len(content) != 1 or len(seps) != 1:
+            rep.undecided('penman.__main__:process: exactly one content print and one separator print in the loop', fi.loc(lp), f'{len(content)} / {len(seps)}')
+            return True
+        c, sp = content[0], seps[0]
+        cn, sn = owner_node(cfg, pm, c), owner_node(cfg, pm, sp)
+        skip = cfg.path_avoiding([(cond, 'T')], {head}, lambda nd: nd.id == cn)
+        rep.add('penman.__main__:process: every iteration prints its graph', fi.loc(c), 'violation' if skip else 'ok',
+                'an iteration can end without output: ' + ' -> '.join(repr(cfg.nodes[p_]) for p_ in skip) if skip else '')
+        again = cfg.path_avoiding([(cn, None)], {cn}, lambda nd: nd.id == head)
+        rep.add('penman.__main__:process: an iteration prints its graph once', fi.loc(c), 'violation' if again else 'ok', 'the print can repeat within one iteration' if again else '')
+        # the graph that is printed is the one pulled for this round: the pull comes after the print
+        pulled_before = pull in cfg.reachable_from([cond], avoid=lambda nd: nd.id in (cn, head)) - {cond}
+        a = c.args[0]
+        srcs = [def_value(cfg, dn, a.id) for dn in RD.get(cn, {}).get(a.id, ())] if isinstance(a, ast.Name) else [a]
+        FORMATTERS = ('penman.codec:PENMANCodec.format', 'penman.codec:PENMANCodec.format_triples')
+        good = bool(srcs) and all(isinstance(v, ast.Call) and any(t.kind == 'func' and t.func.fq in FORMATTERS for t in ctx.cg.resolve_call(v, fi)) for v in srcs)
+        rep.add('penman.__main__:process: the printed text is the formatter result', fi.loc(c), 'ok' if good and not pulled_before else 'undecided',
+                '' if good and not pulled_before else 'the printed value is not read as the formatter result of this round')
+        # separator: after the pull, exactly when there is a next tree, and nowhere else
+        facts = facts_at(cfg, IN, pm, sp)
+        kq = 'penman.__main__:process: separator printed between two graphs (when a further tree was pulled)'
+        fresh = RD.get(sn, {}).get(X, set()) == {pull}
+        if fresh and ((f'{X} is not None', True) in facts or (f'{X} is None', False) in facts):
+            rep.ok(kq, fi.loc(sp), f'under `{X} is not None` right after the pull')
+        elif fresh and ((f'{X} is not None', False) in facts or (f'{X} is None', True) in facts):
+            rep.violation(kq, fi.loc(sp), f'the blank line is printed when NO further tree follows: the output ends with an empty line and the graphs are not separated')
+        elif fresh and not any(X in f_ for f_, _ in facts):
+            rep.violation(kq, fi.loc(sp), f'the blank line does not depend on whether another tree follows: a stream ends with an empty line that dumps() does not produce')
+        else:
+            rep.undecided(kq, fi.loc(sp), 'the separator is not tied to the look-ahead')
+        order = cn in cfg.reachable_from([sn], avoid=lambda nd: nd.id == head)
+        rep.add('penman.__main__:process: separator follows the graph text of its round', fi.loc(sp), 'violation' if order else 'ok',
+                'the separator can precede the graph within one round' if order else '')
+        return True
+    return False
+
+
 @rule('R42', 'process() prints exactly one graph per parsed tree, in order, with one separator between graphs')
 def r42(ctx: Ctx) -> RuleReport:
     rep = RuleReport('R42', r42.title, floor=5)
@@ -710,6 +825,8 @@ def r42(ctx: Ctx) -> RuleReport:
             if any(t.kind == 'func' and t.func.qualname.endswith('iterparse') for t in ts):
                 main_loop = lp
     if main_loop is None:
+        if _r42_lookahead_form(ctx, rep, fi, cfg, pm, IN, RD):
+            return rep
         raise AnalysisError('R42: no loop over codec.iterparse(...) in process()')
     rep.ok('penman.__main__:process: loop over codec.iterparse(f)', fi.loc(main_loop))
     head = cfg.node_of(main_loop)
@@ -960,34 +1077,63 @@ def r82(ctx: Ctx) -> RuleReport:
             rep.ok(k6, fi.loc(st.ast))
         ohead = cfg.node_of(outer)
         verdicts = []
-        for cnt in names:
-            if enum_binds(outer, cnt):
+        las_ = ctx.cg.local_assigns(fi)
+        for cnt0 in names:
+            # key = f'error-{i}': the name in the key is recomputed from a counter; follow the chain back to the counter itself
+            chain = [cnt0]
+            while True:
+                vals_ = [v for v in las_.get(chain[0], []) if isinstance(v, ast.AST)]
+                augs_ = [x for x in walk_local(fi.node) if isinstance(x, ast.AugAssign) and chain[0] in assigned_names(x)]
+                if len(vals_) != 1 or augs_ or len(las_.get(chain[0], [])) != 1:
+                    break
+                srcs_ = sorted({x.id for x in ast.walk(vals_[0]) if isinstance(x, ast.Name) and x.id in las_ and x.id != chain[0]})
+                if len(srcs_) != 1 or srcs_[0] in chain:
+                    break
+                chain.insert(0, srcs_[0])
+            cnt, k_ = chain[0], len(chain) - 1
+            if enum_binds(outer, cnt) and k_ == 0:
                 verdicts.append(None)
                 continue
-            seen, stack, hit = set(), [(st.id, [])], None
+            seen, stack, hit = set(), [(st.id, 0, False, [])], None
             first = True
             while stack:
-                n, path = stack.pop()
-                if n in seen and not first:
+                n, lvl, passed, path = stack.pop()
+                if (n, lvl, passed) in seen and not first:
                     continue
-                first = False
-                seen.add(n)
+                seen.add((n, lvl, passed))
                 node = cfg.nodes[n]
                 if n == ohead and path:
-                    hit = path
-                    break
+                    if lvl == 0:
+                        hit = path
+                        break
+                    passed = True
+                if n == st.id and not first:
+                    if lvl < k_ + 1:
+                        hit = path
+                        break
+                    continue
+                first = False
                 if node.kind == 'stmt' and n != st.id and isinstance(node.ast, ast.AugAssign) and cnt in assigned_names(node.ast) \
                         and isinstance(node.ast.op, (ast.Add, ast.Sub)) and not (try_fold(node.ast.value)[0] and try_fold(node.ast.value)[1] == 0):
-                    continue                                   # the counter moves: a new key from here on
-                if node.kind == 'stmt' and n != st.id and isinstance(node.ast, ast.Assign) and cnt in assigned_names(node.ast) \
+                    lvl = max(lvl, 1)                          # the counter moves: a new key from here on
+                elif node.kind == 'stmt' and n != st.id and isinstance(node.ast, ast.Assign) and cnt in assigned_names(node.ast) \
                         and any(isinstance(x, ast.Name) and x.id == cnt for x in ast.walk(node.ast.value)) and not isinstance(node.ast.value, ast.Name):
-                    continue                                   # i = i + 1
+                    lvl = max(lvl, 1)                          # i = i + 1
+                elif node.kind == 'stmt' and isinstance(node.ast, (ast.Assign, ast.AnnAssign)):
+                    for j_ in range(1, k_ + 1):
+                        if chain[j_] in assigned_names(node.ast) and lvl == j_:
+                            lvl = j_ + 1                       # recomputed from the moved counter
+                if lvl >= k_ + 1 and k_ == 0:
+                    continue
                 for m, lab in cfg.succ[n]:
                     if lab == 'exc' or m in (cfg.rexit,):
                         continue
+                    l2 = lvl
                     if node.kind == 'for' and lab == 'T' and enum_binds(node.ast, cnt):
-                        continue                               # next element of enumerate(): the counter moved
-                    stack.append((m, path + [n]))
+                        if k_ == 0:
+                            continue                           # next element of enumerate(): the counter moved
+                        l2 = max(l2, 1)
+                    stack.append((m, l2, passed, path + [n]))
             verdicts.append(hit)
         if any(v is None for v in verdicts):
             rep.ok(key, fi.loc(st.ast), f'counter(s) {names}')
@@ -1181,6 +1327,12 @@ def r103(ctx: Ctx) -> RuleReport:
     of = ctx.repo.func('penman.__main__', '_order_funcs')
     inner = [f for f in ctx.repo.all_functions() if f.parent is of]
     sa = inner[0] if inner else of
+    if not inner:
+        # return functools.partial(<module-level function>, key_funcs=key_funcs): that function is the type function
+        for n in walk_local(of.node):
+            if isinstance(n, ast.Return) and isinstance(n.value, ast.Call) and norm(n.value.func) in ('functools.partial', 'partial') and n.value.args \
+                    and isinstance(n.value.args[0], ast.Name) and n.value.args[0].id in of.module.functions:
+                sa = of.module.functions[n.value.args[0].id]
     splits = [n for n in walk_local(sa.node) if isinstance(n, ast.Call) and isinstance(n.func, ast.Attribute) and n.func.attr in ('split', 'rsplit')]
     key = f'{sa.fq}: the argument is split at commas'
     if not splits:
@@ -1510,7 +1662,10 @@ def r105(ctx: Ctx) -> RuleReport:
         okp = isinstance(par, (ast.Assign, ast.AugAssign)) and sv in {x.id for x in ast.walk(par.targets[0] if isinstance(par, ast.Assign) else par.target) if isinstance(x, ast.Name)}
         in_loop = any(isinstance(a_, (ast.For, ast.While)) for a_ in _ancestors_of(pmm, c))
         key = f'{main.fq}: the status of `process(...)` at line {c.lineno} reaches the exit status'
-        if not okp:
+        direct = isinstance(par, ast.Call) and norm(par.func) in ('sys.exit', 'exit', 'SystemExit') and par.args and par.args[0] is c
+        if direct and not in_loop:
+            rep.ok(key, main.loc(c), f'handed to {norm(par.func)} directly')
+        elif not okp:
             rep.violation(key, main.loc(c), 'the result of process is not stored in the status variable: --check finds errors but the tool exits 0')
         elif in_loop and isinstance(par, ast.Assign):
             rep.violation(key, main.loc(c), f'inside the loop over the files the status is assigned, not accumulated: only the last file decides the exit status')
